@@ -133,7 +133,10 @@ class SpecEval(object):
                 return ex.ptr_term(self.st, PtrV(None, b.elem, ('sel', b, i, b.elem)))
             raise SpecError('%s: & of index into %r' % (self.what, b))
         if e[0] == 'sel':
-            b = self.ev(e[1])
+            if e[1][0] == 'id' and ('&' + e[1][1]) in self.env and e[1][1] not in self.bound:
+                b = self.lookup('&' + e[1][1])          # a local struct that lives in the heap: use its address
+            else:
+                b = self.ev(e[1])
             if isinstance(b, SnapV) and b.addr is not None:
                 if hasattr(b.f, 'used'):
                     b.f.used.add('&')
